@@ -663,6 +663,9 @@ def _closest_contact_lattice(ctx, cf):
                 if any(n_ not in ints for n_, e_ in rest):
                     problems.append("component %d: the multiple of box[%d] is not a rounding term (%s)" % (k, idx, rest))
                     continue
+                if getattr(c, "denominator", 1) != 1:
+                    problems.append("component %d: box[%d] is taken %s times a rounding term - not a whole number of cell vectors" % (k, idx, c))
+                    continue
                 if k2 != k:
                     problems.append("component %d is corrected with box[%d], which is component %d of cell vector %d" % (k, idx, k2, m_))
                     continue
